@@ -279,6 +279,43 @@ class Env:
             return b"\xff\x01\xff\xff\x83abc\xfe\x02\x80", "small-backref"
         return b"\xfe\x01", "backref-root"
 
+    # ------------------------------------------------------------ non-canonical first bytes
+    # what node_from_bytes_backrefs accepts in place of the canonical `ff 01` at the start of a quoted generator.
+    # len1..len6: the quote atom 0x01 written with an explicit (over-long) length prefix -> the SAME tree (q . X);
+    # check_generator_quote (byte level, SIMPLE_GENERATOR) rejects it although check_generator_node would accept.
+    # The rest parse to a different first element (nil through a back-reference into the empty stack, a nested
+    # list, the two-byte atom 0x0001, the nil atom): both checks reject under SIMPLE_GENERATOR.
+    NONCANON_HEADS = [("len1", b"\xff\x81\x01"), ("len2", b"\xff\xc0\x01\x01"), ("len3", b"\xff\xe0\x00\x01\x01"),
+                      ("len4", b"\xff\xf0\x00\x00\x01\x01"), ("len5", b"\xff\xf8\x00\x00\x00\x01\x01"),
+                      ("len6", b"\xff\xfc\x00\x00\x00\x00\x01\x01"),
+                      ("backref-nil", b"\xff\xfe\x01"), ("nested", b"\xff\xff\x01\x80"), ("two-byte-one", b"\xff\x82\x00\x01"),
+                      ("nil-head", b"\xff\x80")]
+
+    def head_cases(self, per_head=1, memo=None):
+        """valid quoted spend lists whose first two bytes `ff 01` are replaced by every NONCANON_HEADS variant, each
+        with SIMPLE_GENERATOR set and clear (and, with it set, once more without INTERNED_GENERATOR)"""
+        out = []
+        for name, head in self.NONCANON_HEADS:
+            for _ in range(per_head):
+                c = self.case(want_valid=True, memo=memo)
+                while c["kind"] != "quoted" or c["max_cost"] != BLOCK:
+                    c = self.case(want_valid=True, memo=memo)
+                assert c["program"][:2] == b"\xff\x01"
+                for simple in (True, False):
+                    d = dict(c)
+                    d["program"] = head + c["program"][2:]
+                    d["refs"] = []
+                    d["flags"] = (c["flags"] | F["SIMPLE_GENERATOR"] | F["DONT_VALIDATE_SIGNATURE"]) if simple else (c["flags"] & ~F["SIMPLE_GENERATOR"])
+                    if simple:
+                        d["flags"] &= ~F["INTERNED_GENERATOR"]
+                    d["kind"] = "head"
+                    d["tags"] = c["tags"] + [("bytes", "head-" + name)]
+                    if not name.startswith("len"):
+                        d["max_cost"] = min(d["max_cost"], SMALL_LIMIT)      # a different program: keep the interpreter work small
+                        d["budget"] = SMALL_LIMIT
+                    out.append(d)
+        return out
+
     # ------------------------------------------------------------ cases
     def shape_case(self, k):
         """a valid quoted spend list with exactly the k-th output-shape mutation applied"""
